@@ -340,8 +340,11 @@ func (w *World) runTCaller(ci int) {
 		case "kill":
 			if l := w.Net.listeners[addr]; l != nil && !l.closed {
 				ts.down[op.Addr] = true
-				ts.events = append(ts.events, tEvent{simrt.Seq(), simrt.Now(), "kill", op.Addr})
 				l.Kill()
+				// the down interval begins (conservatively) when the kill is complete: while it is in
+				// progress a request may still be written, executed and answered on a connection that
+				// has not been cut yet
+				ts.events = append(ts.events, tEvent{simrt.Seq(), simrt.Now(), "kill", op.Addr})
 				w.ServerUp[op.Addr] = false
 			}
 		case "cutall":
